@@ -558,6 +558,9 @@ class CallMixin:
         self.exec_body(func.node.body, sub)
         if sub.yields is not None:
             return ListV(sub.yields, sub.yields_complete)
+        if getattr(sub, 'returned_nonempty', None) and len(sub.returns) == 1:
+            # a list the callee knows to hold an element at its only return is known to hold one in the caller
+            fr.nonempty |= sub.returned_nonempty
         return sub.result()
 
     @staticmethod
